@@ -577,6 +577,48 @@ def r6(ctx):
              what='get_aligned_blocks: covered positions include deleted / skipped reference bases or skip reads')
 
 
+@rule('C15', 'C15-R7', 'the consensus read is built from the molecule as it is when it is requested: the base calls handed to get_dedup_reads come from a call of '
+                       'get_base_confidence_dict() made in deduplicate_majority itself, not from a memoised property (functools / cached_property values are never '
+                       'refreshed when fragments join, while the CIGAR is computed from the current reads), and saved results on that path are reset by _add_fragment')
+def r7(ctx):
+    from . import shared
+    f = ctx.fn(MOLECULE, 'Molecule.deduplicate_majority')
+    cls = ctx.ix.cls(MOLECULE, 'Molecule')
+    cached = {m.name for m in cls.body if isinstance(m, ast.FunctionDef) and any('cached_property' in src(d) or 'lru_cache' in src(d) or src(d).endswith('cache') for d in m.decorator_list)}
+    calls = [c for c in walk_no_nested(f) if isinstance(c, ast.Call) and isinstance(c.func, ast.Attribute) and c.func.attr == 'get_dedup_reads']
+    ctx.need('C15-R7', len(calls), 1, 'get_dedup_reads calls in deduplicate_majority')
+    for c in calls:
+        ob = [k.value for k in c.keywords if k.arg == 'obs'] or (c.args[2:3])
+        if not ob:
+            ctx.emit('C15-R7', False, MOLECULE, c, 'get_dedup_reads is called without base calls', key='calls-from-current-molecule', undecided=True)
+            continue
+        e = ob[0]
+        seen = 0
+        while isinstance(e, ast.Name) and seen < 4:
+            dd = [a.value for a in walk_no_nested(f) if isinstance(a, ast.Assign) and len(a.targets) == 1 and src(a.targets[0]) == e.id]
+            if len(dd) != 1:
+                break
+            e = dd[0]
+            seen += 1
+        reads_cached = sorted({n.attr for n in ast.walk(e) if isinstance(n, ast.Attribute) and isinstance(n.value, ast.Name) and n.value.id == 'self' and n.attr in cached})
+        # names used inside the expression that are locals bound to a cached property
+        for nm in [n for n in ast.walk(e) if isinstance(n, ast.Name)]:
+            dd = [a.value for a in walk_no_nested(f) if isinstance(a, ast.Assign) and len(a.targets) == 1 and src(a.targets[0]) == nm.id]
+            for d_ in dd:
+                reads_cached += sorted({n.attr for n in ast.walk(d_) if isinstance(n, ast.Attribute) and isinstance(n.value, ast.Name) and n.value.id == 'self' and n.attr in cached})
+        fresh = any(isinstance(n, ast.Call) and isinstance(n.func, ast.Attribute) and n.func.attr == 'get_base_confidence_dict' for n in ast.walk(e)) or any(
+            isinstance(d_, ast.Call) and isinstance(d_.func, ast.Attribute) and d_.func.attr == 'get_base_confidence_dict'
+            for nm in ast.walk(e) if isinstance(nm, ast.Name) for d_ in [a.value for a in walk_no_nested(f) if isinstance(a, ast.Assign) and len(a.targets) == 1 and src(a.targets[0]) == nm.id])
+        if reads_cached:
+            ctx.emit('C15-R7', False, MOLECULE, c, f'the base calls of the consensus read are taken from the memoised `self.{reads_cached[0]}`: computed once per molecule, it still holds the calls of the '
+                     f'smaller molecule after fragments were added, while blocks and CIGAR follow the current reads (newly covered positions become N, old calls are kept)',
+                     key='calls-from-current-molecule', what='deduplicate_majority: base calls from a never-invalidated cached property')
+        else:
+            ctx.emit('C15-R7', fresh, MOLECULE, c, 'base calls come from get_base_confidence_dict() evaluated for this request' if fresh else f'source of the base calls `{src(e)[:60]}` not recognised',
+                     key='calls-from-current-molecule', undecided=not fresh)
+    shared.memo_invalidation(ctx, 'C15-R7', MOLECULE, 'Molecule', ['deduplicate_majority'], what='Molecule.deduplicate_majority')
+
+
 META = {
     'text': ('Decides structural necessary conditions of well-formed consensus pseudo-reads: every numpy/pysam attribute referenced on '
              'the consensus call chain exists in the installed library; CIGAR arithmetic matches inclusive aligned blocks (M = end-start+1, '
